@@ -217,3 +217,46 @@ def validatedOf (s : PState) : Validated :=
     loopLength := if s.acc.loopPlayTime ≥ 0 then s.acc.playTime - s.acc.loopPlayTime.toNat else 0 }
 
 end Ctrmml.Player
+
+namespace Ctrmml.Player
+/-- the stack as `event_hook()` sees it: `JUMP` calls the hook before pushing, every other
+event after its stack update -/
+def hookStack (c c' : Core) (o : Out) : List Frame :=
+  match o with
+  | .hook _ f => if f.kind = .jump then c.stack else c'.stack
+  | _ => c'.stack
+
+/-- what a tracing subclass of `Basic_Player` records in `event_hook`/`end_hook` -/
+structure TraceItem where
+  ev : Event
+  on : Nat
+  off : Nat
+  insideLoop : Bool
+  insideJump : Bool
+  deriving Repr
+
+/-- A `JUMP` to an existing track calls `event_hook()` *before* the push that may overflow:
+in that one case the hook has seen the event although the step ends in an error. -/
+def hookBeforeError (song : Song) (root : List Event) (s : PState) : Option TraceItem :=
+  let e := fetch (codeOf song root s.core.track) s.core.position
+  if e.kind = .jump ∧ (song.track? (trackIdOfParam e.param)).isSome then
+    some { ev := e, on := e.on, off := e.off,
+           insideLoop := insideLoop s.core.stack, insideJump := insideJump s.core.stack }
+  else none
+
+/-- `step_event` + the hook's view; `none` for steps that call no hook, `some none` = end hook;
+on an error, the hook call that preceded it (if any) -/
+def stepTrace (song : Song) (root : List Event) (loopHook : Bool) (s : PState) :
+    Except (PErr × Option TraceItem) (PState × Option (Option TraceItem)) :=
+  match coreStep song root s.core with
+  | .error e => .error (e, hookBeforeError song root s)
+  | .ok (c', o) =>
+    let (a', c'', em) := accStep loopHook s.acc s.core.position c' o
+    let st := hookStack s.core c' o
+    let t := match em with
+      | .event v => some (some { ev := v, on := a'.onTime, off := a'.offTime,
+                                 insideLoop := insideLoop st, insideJump := insideJump st })
+      | .finish => some none
+      | .nothing => none
+    .ok ({ core := c'', acc := a' }, t)
+end Ctrmml.Player
